@@ -46,6 +46,11 @@ def run(ctx):
       if ctx.quick and (si + (0 if lim[0] is None else 1)) % 2:
         continue
       cfg = dict(strategy=st, lag=0, buckets=wm.buckets, frac=(si % 2 == 0))     # every other strategy: fractional float timestamps
+      cfg['res'] = [10, 0, 1][si % 3]
+      cfg['log_updates'], cfg['log_creates'] = bool(si % 2), bool(si % 3 == 0)      # LOG_UPDATES / LOG_CREATES in all four combinations
+      if si % 4 < 2:
+        # names with empty path components next to the name they would "clean up" to: three different metrics
+        cfg['alias'] = {'m1': 'srv..cpu', 'm2': 'srv.cpu', 'm3': '.srv.cpu.'}
       r_ops, _ = cachesys.gen_workload(ctx.rng, nmetrics=3, nts=2, nstores=ctx.pick(4, 6), ndrains=0, nqueries=0)
       pre = ('m1',)
       # default schedule without faults tells how many backend calls there are
